@@ -1,0 +1,43 @@
+/**
+ *      @file    psverif.h
+ *
+ *      Verification hook H0: carrier macro for in-place loop contracts.
+ *
+ *      PS_VERIF_LOOP(...) is written between a loop header and its body,
+ *      e.g.
+ *          for (x = 0; x < n; x++)
+ *          PS_VERIF_LOOP(__CPROVER_assigns(x) __CPROVER_loop_invariant(x <= n))
+ *          {
+ *              ...
+ *          }
+ *      It expands to nothing (and nothing else is declared) unless MATRIXSSL_VERIF is defined (only the
+ *      CBMC-based checks of the verification framework define it), so the
+ *      preprocessed text of every regular build is unchanged.
+ */
+#ifndef _h_PS_VERIF
+# define _h_PS_VERIF
+
+# ifdef MATRIXSSL_VERIF
+#  define PS_VERIF_LOOP(...) __VA_ARGS__
+/*      Ghost index for invariants of the form "for every i in [lo, hi): P(i)":
+        they are written for the single index PS_VERIF_K, which the
+        verification harness defines and leaves unconstrained (arbitrary but
+        fixed), so that no quantifier is needed. */
+extern unsigned short ps_verif_k;
+#  define PS_VERIF_K ps_verif_k
+/*      Pointer hint, written as the first line of the body of a loop that walks
+        a digit array with a pointer:  PS_VERIF_PTR_HINT(p, base + i)   (no
+        semicolon).  The loop contract makes p an arbitrary pointer at the head
+        of the abstract iteration; the hint first ASSERTS that p equals the
+        stated expression (a checked proof obligation) and then re-assigns that
+        same value, which lets the symbolic execution resolve *p to the right
+        array instead of splitting over every object.  Given the assertion the
+        assignment is a no-op, so the verified semantics are those of the
+        unannotated loop. */
+#  define PS_VERIF_PTR_HINT(p, e) __CPROVER_assert((p) == (e), "pointer hint: " #p " == " #e); (p) = (e);
+# else
+#  define PS_VERIF_LOOP(...)
+#  define PS_VERIF_PTR_HINT(p, e)
+# endif
+
+#endif /* _h_PS_VERIF */
